@@ -40,3 +40,62 @@ package types
 //@ modifies table:accountedpool:types.KeyPrefix/types.AccountedPoolKey, table:amm~:types.KeyPrefix/types.PoolKey, table:masterchef:types.GetUserRewardInfoKey, table:tier:types.GetPortfolioKey, module:sdk-distribution
 //@ requires reserveOf(ammPool, d) == reserveOf(ammPoolRow(ctx, ammPool.PoolId), d) && ammPoolHas(ctx, ammPool.PoolId)
 //@ requires perpNetOf(perpetualPool, d) == perpNetOf(perpPoolRow(ctx, ammPool.PoolId), d) && perpPoolHas(ctx, ammPool.PoolId)
+
+// ---- C09: pool aggregates move together with the position amounts -----------------------------------------
+// What a perpetual pool records for a side (1 = long, anything else = short, as GetPoolAssets reads it)
+// and an asset. Sums, so that a pool listing an asset twice is still described exactly.
+//@ define perpCustodyOf(pp, s, d) := ite(s == 1, sumOver(pp.PoolAssetsLong, a, ite(a.AssetDenom == d, a.Custody, 0)), sumOver(pp.PoolAssetsShort, a, ite(a.AssetDenom == d, a.Custody, 0)))
+//@ define perpLiabOf(pp, s, d) := ite(s == 1, sumOver(pp.PoolAssetsLong, a, ite(a.AssetDenom == d, a.Liabilities, 0)), sumOver(pp.PoolAssetsShort, a, ite(a.AssetDenom == d, a.Liabilities, 0)))
+//@ define perpCollOf(pp, s, d) := ite(s == 1, sumOver(pp.PoolAssetsLong, a, ite(a.AssetDenom == d, a.Collateral, 0)), sumOver(pp.PoolAssetsShort, a, ite(a.AssetDenom == d, a.Collateral, 0)))
+//@ define perpLists(pp, s, d) := ite(s == 1, anyOf(pp.PoolAssetsLong, a, a.AssetDenom == d), anyOf(pp.PoolAssetsShort, a, a.AssetDenom == d))
+// the side s and asset d are the ones a position with side pos and asset asset is recorded under
+//@ define sameBook(s, d, pos, asset) := (s == 1) == (pos == 1) && d == asset
+
+//@ func (*Pool).UpdateCustody
+//@ forall d Str
+//@ forall s Int
+//@ modifies elems:p.PoolAssetsLong, elems:p.PoolAssetsShort
+//@ ensures C09/custody-moves-by-the-amount-on-that-side-and-asset-only: err == nil ==> perpCustodyOf(p, s, d) == old(perpCustodyOf(p, s, d)) + ite(sameBook(s, d, position, assetDenom), ite(isIncrease, amount, 0 - amount), 0)
+//@ ensures C09/custody-update-keeps-liabilities-and-collateral: perpLiabOf(p, s, d) == old(perpLiabOf(p, s, d)) && perpCollOf(p, s, d) == old(perpCollOf(p, s, d))
+//@ ensures C09/custody-update-refused-exactly-for-an-unlisted-asset: (err != nil) == !old(perpLists(p, position, assetDenom))
+//@ ensures C09/custody-kept-when-refused: err != nil ==> perpCustodyOf(p, s, d) == old(perpCustodyOf(p, s, d))
+//@ ensures C09/custody-update-keeps-the-listing: perpLists(p, s, d) == old(perpLists(p, s, d))
+
+//@ func (*Pool).UpdateLiabilities
+//@ forall d Str
+//@ forall s Int
+//@ modifies elems:p.PoolAssetsLong, elems:p.PoolAssetsShort
+//@ ensures C09/liabilities-move-by-the-amount-on-that-side-and-asset-only: err == nil ==> perpLiabOf(p, s, d) == old(perpLiabOf(p, s, d)) + ite(sameBook(s, d, position, assetDenom), ite(isIncrease, amount, 0 - amount), 0)
+//@ ensures C09/liabilities-update-keeps-custody-and-collateral: perpCustodyOf(p, s, d) == old(perpCustodyOf(p, s, d)) && perpCollOf(p, s, d) == old(perpCollOf(p, s, d))
+//@ ensures C09/liabilities-update-refused-exactly-for-an-unlisted-asset: (err != nil) == !old(perpLists(p, position, assetDenom))
+//@ ensures C09/liabilities-kept-when-refused: err != nil ==> perpLiabOf(p, s, d) == old(perpLiabOf(p, s, d))
+//@ ensures C09/liabilities-update-keeps-the-listing: perpLists(p, s, d) == old(perpLists(p, s, d))
+
+//@ func (*Pool).UpdateCollateral
+//@ forall d Str
+//@ forall s Int
+//@ modifies elems:p.PoolAssetsLong, elems:p.PoolAssetsShort
+//@ ensures C09/collateral-moves-by-the-amount-on-that-side-and-asset-only: err == nil ==> perpCollOf(p, s, d) == old(perpCollOf(p, s, d)) + ite(sameBook(s, d, position, assetDenom), ite(isIncrease, amount, 0 - amount), 0)
+//@ ensures C09/collateral-update-keeps-custody-and-liabilities: perpCustodyOf(p, s, d) == old(perpCustodyOf(p, s, d)) && perpLiabOf(p, s, d) == old(perpLiabOf(p, s, d))
+//@ ensures C09/collateral-update-refused-exactly-for-an-unlisted-asset: (err != nil) == !old(perpLists(p, position, assetDenom))
+//@ ensures C09/collateral-kept-when-refused: err != nil ==> perpCollOf(p, s, d) == old(perpCollOf(p, s, d))
+//@ ensures C09/collateral-update-keeps-the-listing: perpLists(p, s, d) == old(perpLists(p, s, d))
+
+// The take-profit and fee books are other fields of the same entries: the three aggregates stay.
+//@ func (*Pool).UpdateTakeProfitLiabilities
+//@ forall d Str
+//@ forall s Int
+//@ modifies elems:p.PoolAssetsLong, elems:p.PoolAssetsShort
+//@ ensures C09/take-profit-liabilities-update-keeps-the-aggregates: perpCustodyOf(p, s, d) == old(perpCustodyOf(p, s, d)) && perpLiabOf(p, s, d) == old(perpLiabOf(p, s, d)) && perpCollOf(p, s, d) == old(perpCollOf(p, s, d)) && perpLists(p, s, d) == old(perpLists(p, s, d))
+
+//@ func (*Pool).UpdateTakeProfitCustody
+//@ forall d Str
+//@ forall s Int
+//@ modifies elems:p.PoolAssetsLong, elems:p.PoolAssetsShort
+//@ ensures C09/take-profit-custody-update-keeps-the-aggregates: perpCustodyOf(p, s, d) == old(perpCustodyOf(p, s, d)) && perpLiabOf(p, s, d) == old(perpLiabOf(p, s, d)) && perpCollOf(p, s, d) == old(perpCollOf(p, s, d)) && perpLists(p, s, d) == old(perpLists(p, s, d))
+
+//@ func (*Pool).UpdateFeesCollected
+//@ forall d Str
+//@ forall s Int
+//@ modifies *p.FeesCollected
+//@ ensures C09/fee-book-update-keeps-the-aggregates: perpCustodyOf(p, s, d) == old(perpCustodyOf(p, s, d)) && perpLiabOf(p, s, d) == old(perpLiabOf(p, s, d)) && perpCollOf(p, s, d) == old(perpCollOf(p, s, d)) && perpLists(p, s, d) == old(perpLists(p, s, d))
